@@ -703,6 +703,10 @@ def rules(rep, m):
                     cnt_txt = re.sub(r"(?<![\w>.])%s(?!\w)" % re.escape(pn), amap[pn], cnt_txt)
                 copies[render(strip(l, casts=True))] = (amap_r[hcp[0][1]], cnt_txt)
         for arr, cnt in allocs.items():
+            if not re.fullmatch(r"\*?\w+(->|\.)\w+", arr):
+                # the array that receives the allocation is reached through a table or another indirection this rule does not
+                # follow: undecided, not a violation
+                raise AnalysisBroken("%s: the array allocated at '%s' is not a named member of the target" % (fname, arr[:80]))
             short = arr.split("->")[-1]
             cp = [v for k_, v in copies.items() if k_.endswith("->" + short)]
             r4.instance("%s: %s allocated with %s, copied %s" % (fname, arr, cnt, cp))
